@@ -307,7 +307,7 @@ def pipe_bench(seed):
     return Bench(dut, proc)
 
 
-def phy_loop_bench():
+def phy_loop_bench(sync_frequency=125e6):
     """The real USB3PhysicalLayer with its PHY transmit pins looped back to its receive pins (one cycle later):
     sink -> scrambler -> TX CTC -> [phy] -> RX CTC -> word aligner -> descrambler -> packet aligner -> source."""
     use_repo()
@@ -315,7 +315,7 @@ def phy_loop_bench():
     from luna.gateware.interface.pipe import PIPEInterface
     phy = PIPEInterface(width=4)
     phy._MustUse__silence = True
-    dut = USB3PhysicalLayer(phy=phy, sync_frequency=125e6)
+    dut = USB3PhysicalLayer(phy=phy, sync_frequency=sync_frequency)
 
     async def proc(ctx, stim):
         rec = []
@@ -605,7 +605,7 @@ def check_C31(rep):
                        "origin": "witness:com-first word stalled" if witness else "random"}))
 
     # 5. as wired: the whole physical layer, TX looped back to RX, scrambling on, SKPs inserted and removed on the way
-    lb = phy_loop_bench()
+    lb = phy_loop_bench(sync_frequency=[125e6, 60e6, 200e6][rep.seed % 3])     # only feeds the PHY reset controller
     for _ in range(2 if quick else 12):
         # cycle 0: sink.ready is still low (nothing taken); then a COMx4 word aligns the receiver and restarts both LFSRs
         sched = [([0, 0, 0, 0], 0), ([COM] * 4, 0), ([0x4A, 0x4A, 0x4A, 0x4A], 0)] + [([0, 0, 0, 0], 1)] * 3
@@ -653,21 +653,26 @@ def ctcrx_bench():
     use_repo()
     from luna.gateware.usb.usb3.physical.ctc import CTCSkipRemover
     dut = CTCSkipRemover()
+    top, rst = with_ss_reset(dut)
 
     async def proc(ctx, stim):
         rec = []
         ctx.set(dut.source.ready, 1)
         for v, w in stim:
+            is_rst = v == "rst"           # ("rst", word): domain reset pulsed, no input word offered
+            v = 0 if is_rst else v
+            ctx.set(rst, int(is_rst))
             d, c = pack(w)
             ctx.set(dut.sink.valid, v)
             ctx.set(dut.sink.data, d)
             ctx.set(dut.sink.ctrl, c)
             rec.append({"v": bool(v), "w": list(w), "ov": bool(ctx.get(dut.source.valid)),
                         "ow": syms(ctx.get(dut.source.data), ctx.get(dut.source.ctrl)),
-                        "removed": bool(ctx.get(dut.skip_removed)), "fill": int(ctx.get(dut.bytes_in_buffer))})
+                        "removed": bool(ctx.get(dut.skip_removed)), "fill": int(ctx.get(dut.bytes_in_buffer)),
+                        "rst": is_rst})
             await ctx.tick("ss")
         return rec
-    return Bench(dut, proc)
+    return Bench(top, proc)
 
 
 # symbols that must NOT be removed: data byte 3Ch (same code as SKP, K flag clear), other K symbols, plain data
@@ -787,6 +792,13 @@ def check_C32(rep):
         items.append((bench.run(ctcrx_structured(rng, [a])), {"dut": "CTCSkipRemover", "origin": "structured first-mask=%x" % a}))
     for _ in range(10 if quick else 150):
         items.append((bench.run(ctcrx_random(rng, 200 if quick else 500)), {"dut": "CTCSkipRemover", "origin": "random"}))
+    # `ss` domain reset with 0..7 symbols buffered: nothing buffered before may be delivered afterwards
+    for fill_mask in (0, 8, 12, 14, 1, 3, 7, 15):
+        for pre in (1, 2):
+            counter = [rng.randrange(256)]
+            stim = [(1, ctcrx_word(rng, 0, counter)) for _ in range(pre)] + [(1, ctcrx_word(rng, fill_mask, counter))]
+            stim += [("rst", [0, 0, 0, 0])] + [(1, ctcrx_word(rng, m, counter)) for m in (0, fill_mask, 0, 0)]
+            items.append((bench.run(stim + FLUSH), {"dut": "CTCSkipRemover", "origin": "ss reset after mask %x" % fill_mask}))
 
     for tr, meta in items:
         rep.add_eval(len(tr))
@@ -838,14 +850,14 @@ def ctctx_bench(limit):
     return Bench(dut, proc)
 
 
-def phy_tx_bench():
+def phy_tx_bench(sync_frequency=125e6):
     """The real USB3PhysicalLayer; only its transmit path is driven/observed here."""
     use_repo()
     from luna.gateware.usb.usb3.physical.layer import USB3PhysicalLayer
     from luna.gateware.interface.pipe import PIPEInterface
     phy = PIPEInterface(width=4)
     phy._MustUse__silence = True               # used as a bag of signals only
-    dut = USB3PhysicalLayer(phy=phy, sync_frequency=125e6)
+    dut = USB3PhysicalLayer(phy=phy, sync_frequency=sync_frequency)
 
     async def proc(ctx, stim):
         rec = []
@@ -999,7 +1011,7 @@ def check_C33(rep):
         for sched, origin in link_sweep(limit) + (link_sweep(limit, 4) if limit != SKIP_LIMIT or not quick else []):
             add(limit, "ctc", bench.run(sched), {"dut": "CTCSkipInserter(SKIP_BYTE_LIMIT=%d)" % limit, "origin": origin})
     # in situ: the physical layer's transmit path, observed at the PHY, scrambling mostly on
-    pb = phy_tx_bench()
+    pb = phy_tx_bench(sync_frequency=[60e6, 200e6, 125e6][rep.seed % 3])      # only feeds the PHY reset controller
     for sched, origin in link_sweep(SKIP_LIMIT)[::3 if quick else 1]:
         add(SKIP_LIMIT, "phy", pb.run([(w, idle, 1) for w, idle in sched]),
             {"dut": "USB3PhysicalLayer.sink -> phy.tx_data", "origin": origin, "scrambling": True})
@@ -1036,20 +1048,24 @@ def aligner_bench(cls_name):
     use_repo()
     from luna.gateware.usb.usb3.physical import alignment
     dut = getattr(alignment, cls_name)()
+    top, rst = with_ss_reset(dut)
 
     async def proc(ctx, stim):
         rec = []
         for v, w in stim:
+            is_rst = v == "rst"
+            v = 0 if is_rst else v
+            ctx.set(rst, int(is_rst))
             d, c = pack(w)
             ctx.set(dut.sink.valid, v)
             ctx.set(dut.sink.data, d)
             ctx.set(dut.sink.ctrl, c)
             rec.append({"v": bool(v), "w": list(w), "ov": bool(ctx.get(dut.source.valid)),
                         "ow": syms(ctx.get(dut.source.data), ctx.get(dut.source.ctrl)),
-                        "ooff": int(ctx.get(dut.alignment_offset))})
+                        "ooff": int(ctx.get(dut.alignment_offset)), "rst": is_rst})
             await ctx.tick("ss")
         return rec
-    return Bench(dut, proc)
+    return Bench(top, proc)
 
 
 def aligner_stream(rng, n_syms, patterns, style=None):
@@ -1212,6 +1228,14 @@ def check_C34(rep):
         # code -> spec: systematic offset-pair sweep, then random streams
         for stim, origin in aligner_sweep(patterns) + aligner_bubble_sweep(patterns):
             items.append((bench.run(stim), {"dut": cls, "origin": origin}))
+        # `ss` domain reset at each offset: afterwards offset 0, no memory of the previous word
+        for a in range(4):
+            for pat in patterns:
+                symbols = [0x40 + k for k in range(4 + a)] + list(pat) + [0x80 + k for k in range(8 + (4 - a) % 4)]
+                stim = [(1, symbols[i:i + 4]) for i in range(0, len(symbols) - len(symbols) % 4, 4)]
+                stim += [("rst", [0x1BC, 0x1BC, 0x1BC, 0x1BC])]
+                stim += [(1, [0xA0 + 4 * k, 0xA1 + 4 * k, 0x1A2 + 4 * k, 0xA3 + 4 * k]) for k in range(4)] + [(0, [0, 0, 0, 0])] * 3
+                items.append((bench.run(stim), {"dut": cls, "origin": "ss reset at offset %d" % a}))
         for k in range(24 if quick else 200):
             symbols = aligner_stream(rng, 400 if quick else 800, patterns)
             stim = aligner_stimulus(rng, symbols, rng.choice([0.0, 0.0, 0.15, 0.4]), sorted(special))
@@ -1407,14 +1431,49 @@ def random_envelope(rng, pc, periodic, n_bursts, avoid=None):
     return segs
 
 
-def gen_bench(pattern, freq):
+def gen_bench(pattern, freq, resets=()):
     use_repo()
     from luna.gateware.usb.usb3.physical.lfps import LFPSGenerator
     dut = LFPSGenerator(pattern, freq)
-    return _gen_bench_for(dut, dut.generate, dut.send_signaling, dut.drive_electrical_idle)
+    return _gen_bench_for(dut, dut.generate, dut.send_signaling, dut.drive_electrical_idle, resets)
 
 
-def _gen_bench_for(dut, sig_gen, sig_send, sig_idle):
+def det_reset_bench(dut, sig_in, strobe):
+    """Per-cycle envelope driver with `ss` domain reset pulses.  stimulus = ([(level, cycles)], {reset cycles}, lat)."""
+    top, rst = with_ss_reset(dut)
+
+    async def proc(ctx, stim):
+        segs, resets, lat = stim
+        levels = []
+        for lv, n in segs:
+            levels += [lv] * n
+        det = []
+        for c, lv in enumerate(levels + [0] * (lat + 2)):
+            ctx.set(sig_in, lv)
+            ctx.set(rst, int(c in resets))
+            if ctx.get(strobe):
+                det.append(c)
+            await ctx.tick("ss")
+        marks = [(c, "rise" if levels[c] else "fall") for c in range(1, len(levels)) if levels[c] != levels[c - 1]]
+        if levels and levels[0]:
+            marks.insert(0, (0, "rise"))
+        marks = sorted(marks + [(c, "reset") for c in resets])
+        evs, prev, used = [], 0, set()
+        for c, e in marks:
+            here = [d for d in det if d == c + lat]
+            stray = [d for d in det if prev + lat < d < c + lat and d not in used]
+            used.update(here + stray)
+            evs.append({"e": e, "dt": c - prev, "det": len(here), "stray": len(stray), "at": c})
+            prev = c
+        evs.append({"e": "end", "dt": len(levels) - prev, "det": 0, "stray": len([d for d in det if d not in used]), "at": len(levels)})
+        return evs
+    return Bench(top, proc)
+
+
+def _gen_bench_for(dut, sig_gen, sig_send, sig_idle, resets=()):
+    top, rst = with_ss_reset(dut)
+    dut = top
+
     async def proc(ctx, n_cycles):
         evs = []
         ctx.set(sig_gen, 1)
@@ -1422,6 +1481,12 @@ def _gen_bench_for(dut, sig_gen, sig_send, sig_idle):
         prev = 0
         idle_ok = True
         for c in range(n_cycles):
+            ctx.set(rst, int(c in resets))
+            if c in resets:
+                evs.append({"e": "reset", "dt": c - prev, "idle_ok": idle_ok, "at": c})
+                await ctx.tick("ss")
+                level, prev, idle_ok = 0, c, True
+                continue
             snd = ctx.get(sig_send)
             if not ctx.get(sig_idle):
                 idle_ok = False
@@ -1529,6 +1594,16 @@ def check_C42(rep):
         ("ping(repeat half)", "ping", tables["ping"], 1000000, None, True, 6),
         ("ping(burst half, scaled repeat)", "ping", ping_scaled, 8, PING_SCALED_REPEAT, False, 12),
     ]
+    # clock-frequency value classes (ss_clk_frequency): 250 / 62.5 / 25 MHz besides 125 MHz (default, passed by omission)
+    # and 5 MHz; 62.5 MHz gives non-integral cycle counts (37.5 -> 38), i.e. the rounding-up convention is exercised
+    clock_classes = [4, 16, 40]
+    if quick:
+        plans.append(("polling", "polling", tables["polling"], 16, None, False, 3))
+        plans.append(("polling", "polling", tables["polling"], [4, 40][rep.seed % 2], None, False, 3))
+    else:
+        plans += [("polling", "polling", tables["polling"], 16, None, False, 10),
+                  ("ping(burst half, scaled repeat)", "ping", ping_scaled, 16, PING_SCALED_REPEAT, False, 10),
+                  ("reset", "reset", tables["reset"], 250000, None, False, 6)]
     if not quick:
         plans += [("polling", "polling", tables["polling"], 4, None, False, 10),
                   ("polling", "polling", tables["polling"], 40, None, True, 40),
@@ -1546,7 +1621,9 @@ def check_C42(rep):
             ns.update(rmin=scaled[0], rtyp=scaled[1], rmax=scaled[2])
         pc = _cycles(ns, period)
         periodic = pobj.repeat is not None
-        dut = LFPSDetector(pobj, ss_clk_frequency=freq)
+        # 125 MHz is the documented default: construct without the argument there
+        dut = LFPSDetector(pobj) if period == 8 else LFPSDetector(pobj, ss_clk_frequency=freq)
+        rep.nontriv(("cfg", "LFPSDetector", label, period, "default-arg" if period == 8 else "explicit"))
         bench = det_bench(dut, dut.signaling_received, [dut.detect])
         lat = calibrate_latency(bench, pc, periodic)
         if lat != 2:
@@ -1581,6 +1658,27 @@ def check_C42(rep):
             rep.add_eval(sum(n for _, n in segs))
             items.append(({"cfg": _lcfg("det", pname, period, scaled), "steps": evs}, dict(meta0, origin=origin)))
 
+    # 3b. `ss` domain reset pulsed while the line is idle: every earlier burst must be forgotten (a periodic pattern needs
+    #     two new good pairs, whatever was measured before)
+    for pname, period in (("polling", 200), ("reset", 1000000)):
+        pobj = tables[pname]
+        pc = _cycles(TABLE_NS[pname], period)
+        periodic = pobj.repeat is not None
+        dut = LFPSDetector(pobj, ss_clk_frequency=1e9 / period)
+        rb = det_reset_bench(dut, dut.signaling_received, dut.detect)
+        b = pc["btyp"]
+        gap = (pc["rtyp"] - b) if periodic else 30
+        for after_burst in (1, 2, 3):
+            for off in (6, gap // 2, gap - 6):
+                segs = [(0, 8)] + [(1, b), (0, gap)] * 6 + [(0, 10)]
+                at = 8 + (after_burst - 1) * (b + gap) + b + off
+                evs = rb.run((segs, {at}, 2))
+                rep.add_eval(sum(n for _, n in segs))
+                rep.nontriv(("reset", pname, after_burst, off))
+                items.append(({"cfg": _lcfg("det", pname, period), "steps": evs},
+                              {"dut": "LFPSDetector(%s, %.6g Hz)" % (pname, 1e9 / period), "origin": "ss reset in gap %d +%d" % (after_burst, off),
+                               "latency": 2}))
+
     # 4. generators (polling is the only pattern LUNA transmits)
     for period in ([8, 4] if quick else [8, 4, 2, 1, 200, 40]):
         pobj = tables["polling"]
@@ -1594,6 +1692,13 @@ def check_C42(rep):
         rep.add_eval(n_cyc)
         items.append(({"cfg": _lcfg("gen", "polling", period), "steps": evs},
                       {"dut": "LFPSGenerator(polling, %.6g Hz)" % (1e9 / period), "origin": "generate held high"}))
+        # `ss` domain reset in the middle of a burst and in the middle of the wait: a fresh typical pattern must follow
+        for resets in ({2 + pc["btyp"] // 2}, {2 + pc["rtyp"] + pc["btyp"] + 40}, {2 + pc["btyp"] // 3, 2 + pc["btyp"] // 3 + pc["rtyp"] // 2}):
+            evs = gen_bench(pobj, 1e9 / period, resets).run(n_cyc)
+            rep.add_eval(n_cyc)
+            rep.nontriv(("reset", "gen", period, len(resets)))
+            items.append(({"cfg": _lcfg("gen", "polling", period), "steps": evs},
+                          {"dut": "LFPSGenerator(polling, %.6g Hz)" % (1e9 / period), "origin": "generate high, ss reset at %s" % sorted(resets)}))
 
     # 5. the transceiver as instantiated in the physical layer (125 MHz): polling envelope in, all three detectors out;
     #    send_polling -> generator outputs
@@ -1609,6 +1714,19 @@ def check_C42(rep):
             items.append(({"cfg": _lcfg("det", pname, 8), "steps": out[which]},
                           {"dut": "LFPSTransceiver().%s_detected (125 MHz)" % pname, "origin": "random polling-like envelope",
                            "latency": lat}))
+    if not quick:
+        trx4 = LFPSTransceiver(ss_clk_freq=250e6)
+        tb4 = det_bench(trx4, trx4.signaling_received, [trx4.polling_detected, trx4.reset_detected, trx4.ping_detected])
+        pc4 = _cycles(TABLE_NS["polling"], 4)
+        lat4 = calibrate_latency(tb4, pc4, True, which=0)
+        for k in range(6):
+            segs = random_envelope(rng, pc4, True, rng.randint(4, 7))
+            out = tb4.run((segs, lat4))
+            rep.add_eval(sum(n for _, n in segs))
+            for which, pname in enumerate(["polling", "reset", "ping"]):
+                items.append(({"cfg": _lcfg("det", pname, 4), "steps": out[which]},
+                              {"dut": "LFPSTransceiver(ss_clk_freq=250e6).%s_detected" % pname, "origin": "random polling-like envelope",
+                               "latency": lat4}))
     trx2 = LFPSTransceiver()
     gb = _gen_bench_for(trx2, trx2.send_polling, trx2.send_signaling, trx2.drive_electrical_idle)
     n_cyc = pc["rtyp"] * 2 + pc["btyp"] + 7
